@@ -1,4 +1,268 @@
-/- C19 — property theorems (stub; filled in by the owning work package). -/
-import Rdm.Basic
+/-
+  C19 — anchoring shifts values by gains and losses against the reference point.
+  Property theorems only (helper lemmas live in Rdm/Lemmas/BiasBAnchor*.lean, BiasBKMap.lean).
+
+  Model: Rdm/Model/Anchoring.lean, tied bit-for-bit to the Go code by the stages `anchoring-apply`,
+  `anchoring-refpoints`, `anchoring-scaling`, `anchoring-diffs`, `anchoring-applier` (inline / newCriterion,
+  also with several reference points) of `bin/check C19`; the decidable statement Rdm/Spec/C19.lean is
+  evaluated on the implementation's own output by the driver.  `math.Exp` is a parameter `exp` of the model
+  without assumed laws.
+-/
+import Rdm.Lemmas.BiasBAnchor
+import Rdm.Lemmas.BiasBAnchorRat
+import Rdm.Spec.C19
+import Mathlib.Tactic.NormNum
 namespace Rdm.Props.C19
+open Rdm
+
+/-! ### bridges -/
+
+theorem ideal_name : Facts.anchoringIdeal = "ideal" := rfl
+theorem nadir_name : Facts.anchoringNadir = "nadir" := rfl
+theorem inline_name : Facts.anchoringInline = "inline" := rfl
+theorem new_criterion_name : Facts.anchoringNewCriterion = "newCriterion" := rfl
+/-- the code's `_minAllowedWeight` is the double nearest to the 0.01 of the property statement -/
+theorem min_allowed_weight_is_one_hundredth :
+    (0 : Rat) < Num.ofConst Facts.minAllowedWeight ∧
+    |(Num.ofConst Facts.minAllowedWeight : Rat) - 1 / 100| < 1 / 10 ^ 17 := by
+  simp only [Num.ofConst_rat, Facts.minAllowedWeight]
+  constructor
+  · norm_num
+  · rw [abs_lt]; constructor <;> norm_num
+
+/-! ### reference point -/
+
+/-- The evaluators return exactly one reference point, named after the strategy; each of its values is
+    the value one of the anchoring alternatives has for that criterion. -/
+theorem reference_point_values_are_values_of_anchoring_alternatives {α : Type} [Num α] {fn : String}
+    {alts : List (Alt α × α)} {crits : List (Crit α)} {refs : List (Alt α)}
+    (h : referencePoints fn alts crits = .ok refs) :
+    ∃ r, refs = [r] ∧ r.id = fn ∧ ∀ kv ∈ r.vals, ∃ a ∈ alts, kv ∈ a.1.vals := by
+  unfold referencePoints at h
+  split at h
+  · rename_i hfn
+    obtain ⟨r, hr, h⟩ := bind_eq_ok.mp h
+    simp [pure, Except.pure] at h; subst h
+    refine ⟨r, rfl, ?_, findBest_values_are_candidates hr⟩
+    have hid : r.id = Facts.anchoringIdeal := by
+      unfold findBest at hr
+      split at hr
+      · simp [throw, throwThe, MonadExceptOf.throw] at hr
+      · obtain ⟨_, _, hr⟩ := bind_eq_ok.mp hr
+        simp [pure, Except.pure] at hr; subst hr; rfl
+    rw [hid]; exact (by simpa using hfn : fn = Facts.anchoringIdeal).symm
+  · split at h
+    · rename_i _ hfn
+      obtain ⟨r, hr, h⟩ := bind_eq_ok.mp h
+      simp [pure, Except.pure] at h; subst h
+      refine ⟨r, rfl, ?_, findBest_values_are_candidates hr⟩
+      have hid : r.id = Facts.anchoringNadir := by
+        unfold findBest at hr
+        split at hr
+        · simp [throw, throwThe, MonadExceptOf.throw] at hr
+        · obtain ⟨_, _, hr⟩ := bind_eq_ok.mp hr
+          simp [pure, Except.pure] at hr; subst hr; rfl
+      rw [hid]; exact (by simpa using hfn : fn = Facts.anchoringNadir).symm
+    · simp [throw, throwThe, MonadExceptOf.throw] at h
+
+/-- candidates of the later anchoring alternatives carry those alternatives' coefficients -/
+theorem candidates_coefficients_positive {c : Crit Rat} {rest : List (Alt Rat × Rat)}
+    (hpos : ∀ a ∈ rest, 0 < a.2) : ∀ x ∈ candidatesOf c rest, 0 < x.2 := by
+  intro x hx
+  unfold candidatesOf at hx
+  rw [List.mem_filterMap] at hx
+  obtain ⟨a, ha, hx⟩ := hx
+  cases hv : a.1.vals.get? c.id with
+  | none => simp [hv] at hx
+  | some v => simp [hv] at hx; subst hx; exact hpos a ha
+
+/-- `ideal`, gain criterion, positive coefficients: the reference value is the value `v*` of an anchoring
+    alternative (coefficient `κ*`) with `v·κ ≤ v*·κ*` for every anchoring alternative's `(v, κ)`. -/
+theorem ideal_reference_value_maximises_weighted_value_on_gain {name : String} {a0 : Alt Rat} {k0 : Rat}
+    {rest : List (Alt Rat × Rat)} {crits : List (Crit Rat)} {r : Alt Rat}
+    (h : findBest idealPred name ((a0, k0) :: rest) crits = .ok r) (hnd : (crits.map (·.id)).Nodup)
+    {c : Crit Rat} (hc : c ∈ crits) (hg : c.isGain = true) {v0 : Rat} (hv0 : a0.vals.get? c.id = some v0)
+    (hk0 : 0 < k0) (hpos : ∀ a ∈ rest, 0 < a.2) :
+    ∃ w ∈ (v0, k0) :: candidatesOf c rest, r.vals.get? c.id = some w.1 ∧
+      ∀ x ∈ (v0, k0) :: candidatesOf c rest, x.1 * x.2 ≤ w.1 * w.2 := by
+  refine ⟨bestFold idealPred c (v0, k0) (candidatesOf c rest), bestFold_mem _ _ _ _, (findBest_get h hnd hc hv0).2, ?_⟩
+  apply bestFold_ideal_gain c hg
+  intro x hx
+  simp only [List.mem_cons] at hx
+  rcases hx with rfl | hx
+  · exact hk0
+  · exact candidates_coefficients_positive hpos x hx
+
+/-- `ideal`, cost criterion: the reference value minimises `v/κ`. -/
+theorem ideal_reference_value_minimises_weighted_value_on_cost {name : String} {a0 : Alt Rat} {k0 : Rat}
+    {rest : List (Alt Rat × Rat)} {crits : List (Crit Rat)} {r : Alt Rat}
+    (h : findBest idealPred name ((a0, k0) :: rest) crits = .ok r) (hnd : (crits.map (·.id)).Nodup)
+    {c : Crit Rat} (hc : c ∈ crits) (hg : c.isGain = false) {v0 : Rat} (hv0 : a0.vals.get? c.id = some v0)
+    (hk0 : 0 < k0) (hpos : ∀ a ∈ rest, 0 < a.2) :
+    ∃ w ∈ (v0, k0) :: candidatesOf c rest, r.vals.get? c.id = some w.1 ∧
+      ∀ x ∈ (v0, k0) :: candidatesOf c rest, w.1 / w.2 ≤ x.1 / x.2 := by
+  refine ⟨bestFold idealPred c (v0, k0) (candidatesOf c rest), bestFold_mem _ _ _ _, (findBest_get h hnd hc hv0).2, ?_⟩
+  apply bestFold_ideal_cost c hg
+  intro x hx
+  simp only [List.mem_cons] at hx
+  rcases hx with rfl | hx
+  · exact hk0
+  · exact candidates_coefficients_positive hpos x hx
+
+/-- `nadir`, gain criterion: the reference value minimises `v·κ`. -/
+theorem nadir_reference_value_minimises_weighted_value_on_gain {name : String} {a0 : Alt Rat} {k0 : Rat}
+    {rest : List (Alt Rat × Rat)} {crits : List (Crit Rat)} {r : Alt Rat}
+    (h : findBest nadirPred name ((a0, k0) :: rest) crits = .ok r) (hnd : (crits.map (·.id)).Nodup)
+    {c : Crit Rat} (hc : c ∈ crits) (hg : c.isGain = true) {v0 : Rat} (hv0 : a0.vals.get? c.id = some v0)
+    (hk0 : 0 < k0) (hpos : ∀ a ∈ rest, 0 < a.2) :
+    ∃ w ∈ (v0, k0) :: candidatesOf c rest, r.vals.get? c.id = some w.1 ∧
+      ∀ x ∈ (v0, k0) :: candidatesOf c rest, w.1 * w.2 ≤ x.1 * x.2 := by
+  refine ⟨bestFold nadirPred c (v0, k0) (candidatesOf c rest), bestFold_mem _ _ _ _, (findBest_get h hnd hc hv0).2, ?_⟩
+  apply bestFold_nadir_gain c hg
+  intro x hx
+  simp only [List.mem_cons] at hx
+  rcases hx with rfl | hx
+  · exact hk0
+  · exact candidates_coefficients_positive hpos x hx
+
+/-- `nadir`, cost criterion: the reference value maximises `v/κ`. -/
+theorem nadir_reference_value_maximises_weighted_value_on_cost {name : String} {a0 : Alt Rat} {k0 : Rat}
+    {rest : List (Alt Rat × Rat)} {crits : List (Crit Rat)} {r : Alt Rat}
+    (h : findBest nadirPred name ((a0, k0) :: rest) crits = .ok r) (hnd : (crits.map (·.id)).Nodup)
+    {c : Crit Rat} (hc : c ∈ crits) (hg : c.isGain = false) {v0 : Rat} (hv0 : a0.vals.get? c.id = some v0)
+    (hk0 : 0 < k0) (hpos : ∀ a ∈ rest, 0 < a.2) :
+    ∃ w ∈ (v0, k0) :: candidatesOf c rest, r.vals.get? c.id = some w.1 ∧
+      ∀ x ∈ (v0, k0) :: candidatesOf c rest, x.1 / x.2 ≤ w.1 / w.2 := by
+  refine ⟨bestFold nadirPred c (v0, k0) (candidatesOf c rest), bestFold_mem _ _ _ _, (findBest_get h hnd hc hv0).2, ?_⟩
+  apply bestFold_nadir_cost c hg
+  intro x hx
+  simp only [List.mem_cons] at hx
+  rcases hx with rfl | hx
+  · exact hk0
+  · exact candidates_coefficients_positive hpos x hx
+
+/-! ### mapped difference -/
+
+/-- The split is exactly at 0: a positive scaled difference goes through the gain function, everything
+    else (including 0) through the negated loss function of the negated difference. -/
+theorem mapped_difference_splits_at_zero {α : Type} [Num α] (ev : AFun α → α → α) (loss gain : AFun α) (d : α) :
+    (Num.zero < d → mapDiff ev loss gain d = ev gain d) ∧
+    (¬ Num.zero < d → mapDiff ev loss gain d = -(ev loss (-d))) :=
+  ⟨mapDiff_pos ev loss gain d, mapDiff_nonpos ev loss gain d⟩
+
+/-- Linear gain / loss (not identically zero): `a_g·d + b_g` when better, `−(a_l·(−d) + b_l)` otherwise. -/
+theorem mapped_difference_of_linear_functions (exp : Rat → Rat) (l g : LinFun Rat)
+    (hl : ¬ (l.a = 0 ∧ l.b = 0)) (hg : ¬ (g.a = 0 ∧ g.b = 0)) (d : Rat) :
+    mapDiff (AFun.eval exp) (.linear l) (.linear g) d = if 0 < d then g.a * d + g.b else -(l.a * (-d) + l.b) :=
+  mapDiff_linear exp l g hl hg d
+
+/-- Identically-zero gain and loss functions map every difference to 0, whatever `exp` is. -/
+theorem zero_functions_map_every_difference_to_zero (exp : Rat → Rat) (loss gain : AFun Rat)
+    (hl : AFun.isZero loss) (hg : AFun.isZero gain) (d : Rat) : mapDiff (AFun.eval exp) loss gain d = 0 :=
+  mapDiff_zero exp loss gain hl hg d
+
+/-! ### inline applier -/
+
+/-- One criterion of the inline applier: the new value is `bound(v + range·mean)` and the reported
+    difference is exactly new − old; other criteria are not touched by this step. -/
+theorem inline_step_shifts_and_reports_new_minus_old {α : Type} [Num α] {b : Bounding α} {avg old : KMap α}
+    {st st' : KMap α × KMap α} {cs : String × Scale α} (h : inlineStep b avg old st cs = .ok st') :
+    ∃ mean v, avg.get? cs.1 = some mean ∧ old.get? cs.1 = some v ∧
+      st'.1.get? cs.1 = some (cs.2.2 |> fun range => b.bound range (v + (range.2 - range.1) * mean)) ∧
+      st'.2.get? cs.1 = some ((cs.2.2 |> fun range => b.bound range (v + (range.2 - range.1) * mean)) - v) ∧
+      (∀ k, k ≠ cs.1 → st'.1.get? k = st.1.get? k ∧ st'.2.get? k = st.2.get? k) := by
+  obtain ⟨m, v, h1, h2, h3, h4, h5⟩ := inlineStep_ok h
+  exact ⟨m, v, h1, h2, h3, h4, h5⟩
+
+/-- The inline applier for one alternative (criteria ids of the scaling distinct): every criterion is
+    shifted to `bound(v + range·mean)` of its old value `v` and the arithmetic mean of its mapped
+    differences over the reference points, and the reported applied difference is exactly new − old. -/
+theorem inline_applier_shifts_every_criterion_and_reports_new_minus_old {α : Type} [Num α] {b : Bounding α}
+    {sc : KMap (Scale α)} {p : AltDiffs α} {a' d' : Alt α}
+    (h : inlineOne b sc p = .ok (a', d')) (hnd : (sc.map (·.1)).Nodup) :
+    a'.id = p.1.id ∧ d'.id = p.1.id ∧
+    ∃ avg, arithmeticAverage p.2 = .ok avg ∧
+      ∀ cs ∈ sc, ∃ mean v, avg.get? cs.1 = some mean ∧ p.1.vals.get? cs.1 = some v ∧
+        a'.vals.get? cs.1 = some (inlineValue b cs.2.2 v mean) ∧
+        d'.vals.get? cs.1 = some (inlineValue b cs.2.2 v mean - v) := inlineOne_ok h hnd
+
+/-- With a zero mean mapped difference (in particular for identically-zero gain and loss functions) the
+    inline applier leaves the value as it is — up to the configured bounding of the old value itself;
+    without bounding exactly unchanged. -/
+theorem inline_zero_difference_leaves_value_unchanged (b : Bounding Rat) (range : Rat × Rat) (v : Rat) :
+    inlineValue b range v 0 = b.bound range v ∧
+    (¬ (0 : Rat) < b.scaling → b.nonNeg = false → inlineValue b range v 0 = v) :=
+  ⟨inlineValue_zero b range v, inlineValue_zero_off b range v⟩
+
+/-- Without bounding the inline shift is `v + (max − min)·mean`. -/
+theorem inline_shift_without_bounding (b : Bounding Rat) (range : Rat × Rat) (v mean : Rat)
+    (hs : ¬ (0 : Rat) < b.scaling) (hn : b.nonNeg = false) :
+    inlineValue b range v mean = v + (range.2 - range.1) * mean := inlineValue_off b range v mean hs hn
+
+/-! ### newCriterion applier -/
+
+/-- One anchoring criterion per reference point: when the criterion of reference point number `ri` does
+    not exist yet, exactly one criterion is appended — named `NotUsedName("__anchoring_criterion_" + refPoint)`,
+    with the reference criterion's type and declared range, and an id no criterion had; afterwards it is
+    reused for the remaining alternatives. -/
+theorem new_criterion_applier_adds_one_criterion_per_reference_point {α : Type} [Num α] {ref : Crit α}
+    {gens : List (Draws α)} {st st' : NCState α} {ri : Nat} {rp : String}
+    (h : ncNewCriterion ref gens st ri rp = .ok st') :
+    (st.added.length = ri →
+      ∃ c : Crit α, st'.crits = st.crits ++ [c] ∧ c.type = ref.type ∧ c.range = ref.range ∧
+        c.id = notUsedName (st.crits.map (·.id)) ("__anchoring_criterion_" ++ rp) ∧
+        (∀ x ∈ st.crits, x.id ≠ c.id) ∧
+        ∃ a : AddedAnch α, st'.added = st.added ++ [a] ∧ a.id = c.id ∧ a.type = c.type) ∧
+    (ri < st.added.length → st' = st) := by
+  constructor
+  · intro hlen
+    obtain ⟨c, h1, h2, h3, h4, h5, h6⟩ := ncNewCriterion_creates h hlen
+    refine ⟨c, h1, h2, h3, h4, ?_, h6⟩
+    intro x hx e
+    have := h5 x hx
+    simp [e] at this
+  · exact ncNewCriterion_reuses h
+
+/-- The importance weights used by the newCriterion applier (ascending ranking, shifted so that the
+    smallest is at least the minimum allowed weight, divided by the total) are positive and sum to 1;
+    the criteria and their order are unchanged. -/
+theorem normalised_importance_is_positive_and_sums_to_one {m : Rat} {c0 : WCrit Rat}
+    {rest out : List (WCrit Rat)} (hm : 0 < m) (hmin : ∀ c ∈ c0 :: rest, c0.w ≤ c.w)
+    (h : normalizeWeights m (c0 :: rest) = .ok out) :
+    (∀ c ∈ out, 0 < c.w) ∧ out.foldl (fun t c => t + c.w) 0 = 1 ∧
+    out.map (·.crit) = (c0 :: rest).map (·.crit) := normalizeWeights_ok hm hmin h
+
+/-- Value of an anchoring criterion: the reference range's mid-point plus half the range times the
+    importance-weighted mapped difference (no bounding) … -/
+theorem new_criterion_value_formula (b : Bounding Rat) (lo hi cv : Rat)
+    (hs : ¬ (0 : Rat) < b.scaling) (hn : b.nonNeg = false) :
+    ncValue b (lo, hi) cv = lo + (hi - lo) / 2 + (hi - lo) / 2 * cv := ncValue_off b lo hi cv hs hn
+
+/-- … which stays inside the reference criterion's range when the weighted difference is in [−1, 1]. -/
+theorem new_criterion_value_stays_in_range (b : Bounding Rat) (lo hi cv : Rat)
+    (hs : ¬ (0 : Rat) < b.scaling) (hn : b.nonNeg = false) (hr : lo ≤ hi) (h0 : -1 ≤ cv) (h1 : cv ≤ 1) :
+    lo ≤ ncValue b (lo, hi) cv ∧ ncValue b (lo, hi) cv ≤ hi := ncValue_in_range b lo hi cv hs hn hr h0 h1
+
+/-- With a positive `allowedValuesRangeScaling` both appliers' values lie in the allowed range. -/
+theorem bounded_values_lie_in_the_allowed_range (b : Bounding Rat) (range : Rat × Rat) (x : Rat)
+    (hs : (0 : Rat) < b.scaling) (hr : (allowedRange b range).1 ≤ (allowedRange b range).2) :
+    (allowedRange b range).1 ≤ b.bound range x ∧ b.bound range x ≤ (allowedRange b range).2 :=
+  bound_in_allowed b range x hs hr
+
+/-! ### parsing -/
+
+/-- A JSON-decoded request that omits `coefficient` gets coefficient 0 (not 1): the fallback loop of
+    `checkAnchoringAlternatives` assigns to a copy.  Only the typed form defaults to 1. -/
+theorem missing_coefficient_stays_zero_for_json_props {α : Type} [Num α] (p : AnchProps α) (i : String)
+    (hp : p.alts = [(i, none)]) :
+    anchoringAlternatives p = .ok [(i, if p.typed then Num.one else Num.zero)] := by
+  unfold anchoringAlternatives
+  simp [hp, pure, Except.pure]
+
+/-- no anchoring alternatives: rejected -/
+theorem no_anchoring_alternatives_is_rejected {α : Type} [Num α] (p : AnchProps α) (hp : p.alts = []) :
+    ∃ e, anchoringAlternatives p = .error e := by
+  unfold anchoringAlternatives
+  simp [hp, throw, throwThe, MonadExceptOf.throw]
+
 end Rdm.Props.C19
